@@ -339,3 +339,26 @@ func VerifSTLParseTeletextRow(row []byte, pendingAccent byte) (lines []Line, pen
 	parseTeletextRow(i, h, func() styler { return newSTLStyler() }, row)
 	return i.Lines, h.accent, nil
 }
+
+// VerifSTLRawGet returns the value a BiMap of the STL code stores under a key, as the interface value the code
+// type-asserts ("table": the Latin character code table, int keys; "mapping": stlUnicodeMapping; "diacritic":
+// stlUnicodeDiacritic; "framerate": stlFramerateMapping; "language": stlLanguageMapping)
+func VerifSTLRawGet(which string, key interface{}, inverse bool) (interface{}, bool) {
+	m := map[string]interface {
+		Get(interface{}) (interface{}, bool)
+		GetInverse(interface{}) (interface{}, bool)
+	}{
+		"table":     stlCharacterCodeTables[stlCharacterCodeTableNumberLatin],
+		"mapping":   stlUnicodeMapping,
+		"diacritic": stlUnicodeDiacritic,
+		"framerate": stlFramerateMapping,
+		"language":  stlLanguageMapping,
+	}[which]
+	if m == nil {
+		return nil, false
+	}
+	if inverse {
+		return m.GetInverse(key)
+	}
+	return m.Get(key)
+}
